@@ -131,6 +131,9 @@ def gen_cases(rng, tier):
             c.op("hdrop", i)
         for k in ["setctime", "setmtime", "setatime"]:
             c.mut.append((c.op(k, sp, 12345), k, path))
+        # ... and with exactly the value the entry already reports: still a mutating call, still refused
+        for fld in ("c", "m", "a"):
+            c.same = getattr(c, "same", []) + [c.op("setsame", fld, sp)]
         c.mut.append((c.op("copyfile", vfx.ps(e, "a.txt"), vfx.ps(e, "copy.txt")), "copyfile", path))
         c.mut.append((c.op("movefile", vfx.ps(e, "a.txt"), vfx.ps(e, "moved.txt")), "movefile", path))
     c.t1 = c.op("tree", e)
@@ -173,6 +176,12 @@ def oracle(cases, mlines, ilines):
                 out.append({"case": c.name, "case_text": c.text(), "step": i, "op": c.ops[i], "kind": "r",
                             "model": mlines.get(("r", c.name, i)), "impl": l, "violates": True,
                             "note": "mutating call %s on EmbeddedFS is not refused as not-supported: %s" % (k, l)})
+        for i in getattr(c, "same", []):
+            l = ilines.get(("r", c.name, i)) or ""
+            if not (l.startswith("err:NotSupported") or l.startswith("err:NotFound") or l == "ok:optstr:none"):
+                out.append({"case": c.name, "case_text": c.text(), "step": i, "op": c.ops[i], "kind": "r",
+                            "model": mlines.get(("r", c.name, i)), "impl": l, "violates": True,
+                            "note": "a time setter called with the entry's own current value is not refused as not-supported: %s" % l})
         if hasattr(c, "t0") and ilines.get(("r", c.name, c.t0)) != ilines.get(("r", c.name, c.t1)):
             out.append({"case": c.name, "case_text": c.text(), "step": c.t1, "op": "tree", "kind": "r",
                         "model": None, "impl": ilines.get(("r", c.name, c.t1)), "violates": True,
@@ -181,6 +190,8 @@ def oracle(cases, mlines, ilines):
 
 
 def project(kind, case, step, op, line):
+    if op.startswith("setsame"):
+        return "-"          # judged by the oracle on the implementation (the driver has no such operation)
     return histprop.contract_view(line) if line is not None else None
 
 
